@@ -158,15 +158,27 @@ def run(R):
                                'than requested when the packet is cut at this point', site(cxx, c))
     R.minimum('C06.ORD.1', 5)
     # width table of the stream reader == parse_tl_num  (shared with C08.TBL.1)
-    from ..tlvtables import varnum_tables, compare_varnum
+    from ..tlvtables import varnum_tables, compare_varnum, stream_read_profile
     R.ob('C06.TBL.1', 'read_tl_num_from_stream and parse_tl_num decode the same VAR-NUMBER table')
-    tabs = varnum_tables(P)
-    for (what, a, b, okay, detail) in compare_varnum(tabs, only=('read_tl_num_from_stream', 'parse_tl_num')):
-        inst = f'{a} vs {b} :: {what}'
-        if okay:
-            R.ok('C06.TBL.1', inst, tabs[a]['site'], detail)
-        else:
-            R.fail('C06.TBL.1', inst, 'ndn.encoding.tlv_var.' + a, what, f'{a} and {b} disagree: {detail}', tabs[a]['site'])
+    try:
+        tabs = varnum_tables(P, ('read_tl_num_from_stream', 'parse_tl_num'))
+        for (what, a, b, okay, detail) in compare_varnum(tabs, only=('read_tl_num_from_stream', 'parse_tl_num')):
+            inst = f'{a} vs {b} :: {what}'
+            if okay:
+                R.ok('C06.TBL.1', inst, tabs[a]['site'], detail)
+            else:
+                R.fail('C06.TBL.1', inst, 'ndn.encoding.tlv_var.' + a, what, f'{a} and {b} disagree: {detail}', tabs[a]['site'])
+    except AnalysisError:
+        # not an if/elif chain: execute the reader for one representative first octet per class
+        prof = stream_read_profile(P)
+        want = {0x10: 1, 0xFD: 3, 0xFE: 5, 0xFF: 9}
+        for k in sorted(want):
+            inst = f'read_tl_num_from_stream :: first octet {k:#x} reads {want[k]} byte(s) in total'
+            if prof.get(k) == want[k]:
+                R.ok('C06.TBL.1', inst, rx.f.loc(), 'by execution over the extracted size table')
+            else:
+                R.fail('C06.TBL.1', inst, READ_TL, f'first octet {k:#x}', f'a number starting with {k:#x} takes {want[k]} bytes on the wire but the stream reader '
+                       f'consumes {prof.get(k)}: every packet after it is mis-framed', rx.f.loc())
 
     # ---------------------------------------------------------------- LOP.1 one task per packet
     R.ob('C06.LOP.1', 'every transport hands each packet to the pipeline as its own task (a failing packet cannot stop the loop)')
